@@ -139,6 +139,18 @@ pub fn flush_backlog(s: &mut Simk, fd: i32) {
     }
 }
 
+/// The kernel runs concurrently with user space: it may look at the completion
+/// queue head at any time, reuse slots that were given back and deliver
+/// overflowed completions into them.
+pub fn kernel_tick() {
+    let Ok(mut g) = super::try_k() else { return };
+    let s = &mut *g;
+    let fds: Vec<i32> = s.rings.keys().copied().collect();
+    for fd in fds {
+        flush_backlog(s, fd);
+    }
+}
+
 /// Number of completions visible to a10 and not yet consumed.
 pub fn cq_ready(s: &mut Simk, fd: i32) -> u32 {
     sync_cq(s, fd);
@@ -455,7 +467,9 @@ fn enter_step(s: &mut Simk, fd: i32, to_submit: u32, min_complete: u32, flags: u
     let sqpoll = s.rings[&fd].sqpoll();
     let submitted = if sqpoll {
         // The kernel thread picks up everything; enter never submits itself.
-        consume(s, fd, u32::MAX);
+        if !s.knobs.sqpoll_strict {
+            consume(s, fd, u32::MAX);
+        }
         if first { to_submit as i32 } else { 0 }
     } else {
         consume(s, fd, to_submit) as i32
